@@ -442,6 +442,65 @@ print(json.dumps(out))
     return True
 
 
+# ------------------------------------------------------------------ C11.i sets of three categories; containers changed by the caller between calls
+def ob_i(a: int, b: int, c: int) -> bool:
+    assume(0 <= a < b)
+    assume(b < c)
+    assume(c < N)
+    return _i_body(choose(a, N), choose(b, N), choose(c, N))
+
+
+@native
+def _i_body(a, b, c):
+    """Every set of three categories on either side (nested members included: an ancestor next to its own descendant), as list /
+    tuple / set in any member order; then the SAME container object changed in place by the caller and handed in again: every
+    answer is the documented closure of what the container holds at the time of the call."""
+    trio = [CATS[a], CATS[b], CATS[c]]
+    names = [x.name for x in trio]
+    k = (a + b + c) % 3
+    for order in ((0, 1, 2), (2, 0, 1), (1, 2, 0))[:2 if not ctx.thorough() else 3]:
+        mem = [trio[i] for i in order]
+        inc = shape(SHAPES[k], mem)
+        v = TC.valid(include=inc)
+        check(set(_names(v)) == model_valid(names, None), lambda: f'valid(include={inc!r}) = {_names(v)}, documented closure {sorted(model_valid(names, None))}')
+        v = TC.valid(exclude=inc)
+        check(set(_names(v)) == model_valid(None, names), lambda: f'valid(exclude={inc!r}) = {_names(v)}, documented {sorted(model_valid(None, names))}')
+        k = (k + 1) % 3
+    # one of the three excluded again, the others included
+    v = TC.valid(include=[trio[0], trio[2]], exclude={trio[1]})
+    check(set(_names(v)) == model_valid([names[0], names[2]], [names[1]]), lambda: f'valid(include={[names[0], names[2]]}, exclude={{{names[1]}}}) = {_names(v)}')
+    for t in (trio[0], trio[1], trio[2], CATS[(a + 5) % N], CATS[(c * 7 + 3) % N]):
+        got = TC.match(t, include=set(trio))
+        check(bool(got) == model_match(t.name, names, None), lambda: f'match({t.name}, include={names}) = {got}')
+        got = TC.match(t, exclude=tuple(trio))
+        check(bool(got) == model_match(t.name, None, names), lambda: f'match({t.name}, exclude={names}) = {got}')
+    # the caller's own containers, changed in place between two calls (set and list)
+    for mk in (set, list):
+        box = mk([trio[0]])
+        target = trio[1]
+        first = TC.match(target, include=box)
+        check(bool(first) == model_match(target.name, [names[0]], None), lambda: f'match({target.name}, include=[{names[0]}]) = {first}')
+        if mk is set:
+            box.discard(trio[0]); box.add(trio[2])
+        else:
+            box[0] = trio[2]
+        second = TC.match(target, include=box)
+        check(bool(second) == model_match(target.name, [names[2]], None),
+              lambda: f'match({target.name}, include=<the same {mk.__name__} object, now holding {names[2]} instead of {names[0]}>) = {second}, documented {model_match(target.name, [names[2]], None)}')
+        v = TC.valid(include=box)
+        check(set(_names(v)) == model_valid([names[2]], None), lambda: f'valid(include=<container changed in place, now [{names[2]}]>) = {_names(v)}')
+        xbox = mk([trio[2]])
+        f1 = TC.match(target, exclude=xbox)
+        if mk is set:
+            xbox.clear(); xbox.add(trio[0])
+        else:
+            xbox[0] = trio[0]
+        f2 = TC.match(target, exclude=xbox)
+        check(bool(f1) == model_match(target.name, None, [names[2]]) and bool(f2) == model_match(target.name, None, [names[0]]),
+              lambda: f'match({target.name}, exclude=<{mk.__name__} holding {names[2]}, then changed in place to {names[0]}>) = {f1}, {f2}')
+    return True
+
+
 # members are concrete once the selector has been consumed by table lookup: the real functions then run untraced
 UNTRACE = [('kernpy.core.tokens', 'TokenCategoryHierarchyMapper.valid'), ('kernpy.core.tokens', 'TokenCategoryHierarchyMapper.match')]
 
@@ -491,6 +550,10 @@ OBLIGATIONS = [
        bounds={'quick': '37 x 38 (include, exclude) pairs x 16 targets spread over the members, list shape only (shapes are C11.d)',
                'thorough': '37 x 38 x 37 targets x 4 shapes'},
        ),
+    Ob(id='C11.i', fn=ob_i, title='every set of three categories as include / exclude (nested members, any order, list / tuple / set); containers changed in place by the caller between calls',
+       shard_of=lambda a, b, c: a + b, shards={'quick': 16, 'thorough': 16}, budget_s={'quick': 170, 'thorough': 900},
+       witnesses=[{'a': 0, 'b': 5, 'c': 9}, {'a': 3, 'b': 4, 'c': 36}], min_confirmed=7000,
+       symbolic='three member indices a < b < c', bounds={'quick': 'all C(37,3) = 7 770 sets', 'thorough': 'same, three member orders'}),
     Ob(id='C11.f', fn=ob_f, title='non-category members are rejected with ValueError',
        shard_of=lambda i, w, k, side: i, shards={'quick': 4, 'thorough': 4}, budget_s={'quick': 100, 'thorough': 300},
        witnesses=[{'i': 0, 'w': 0, 'k': 0, 'side': True}], min_confirmed=100,
